@@ -302,6 +302,10 @@ func (q *depQuery) compute(v ssa.Value, path []int, depth int) bool {
 		return false
 	case *ssa.Parameter:
 		if q.noParams {
+			// a helper with exactly one static call site is transparent: its parameter is the argument there
+			if arg := uniqueCallArgument(x); arg != nil && depth < 30 {
+				return q.dep(arg, path, depth+1)
+			}
 			return false
 		}
 		fn := x.Parent()
